@@ -7,14 +7,14 @@ from vlib.harness import trees, globrun
 
 G = globrun.G
 PATS = ['**', '**/', '**/*', '**/x', 'd/**', '**/s/**', '**/s/**/y', 'ld/**', 'ld/*', 'd/up/*', '**/up/**', '***', '***/x', 'd/***', 'a/**', 'a/lr/*', '**/t', 'a/**/t', '**/r/**/t',
-        'lh/**', '**/z', '.hd/**', '**/.*', 'x', 't', '**/lf2', '**/lt', 'a/r/up/**', '**/a', '**/d/**/e/**', '***/a/**/t', '***/d/**/y', '***/**/t']
+        'lh/**', '**/z', '.hd/**', '**/.*', 'x', 't', '**/lf2', '**/lt', 'a/r/up/**', '**/a', '**/d/**/e/**', '***/a/**/t', '***/d/**/y', '***/**/t', '**/d/***', '**/r/***', '**/s/***', '**/sib/***', '**/d/***/f']
 FLAGSETS = {'G': G.G, 'G|D': G.G | G.D, 'X|G': G.X | G.G, 'GL': G.GL, 'G|L': G.G | G.L, 'GL|L': G.GL | G.L, 'X|GL|L': G.X | G.GL | G.L, 'X|GL': G.X | G.GL, 'G|SD': G.G | G.SD}
 CYCLES = {'selfloop': {'a': 'd', 'a/b': 'd', 'a/b/up': ('l', '../..'), 'a/b/f': 'f', 'a/self': ('l', '.'), 'f': 'f'},
           'mutual': {'p': 'd', 'q': 'd', 'p/toq': ('l', '../q'), 'q/top': ('l', '../p'), 'p/f': 'f', 'q/g': 'f', '.h': 'd', '.h/toroot': ('l', '..')}}
 
 
 def run(chk, tier, seed):
-    specs = {'links': trees.LINKS, 'deep2': trees.DEEP2, 'acyclic': trees.ACYCLIC, 'relink': trees.RELINK}
+    specs = {'links': trees.LINKS, 'deep2': trees.DEEP2, 'acyclic': trees.ACYCLIC, 'relink': trees.RELINK, 'twin': trees.TWIN}
     specs.update(CYCLES)
     rnd = random.Random(seed * 7 + 3)
     for i in range(2 if tier == 'quick' else 30):
@@ -41,7 +41,11 @@ def run(chk, tier, seed):
     # globmatch(REALPATH) applies the same symlink rule to the path it is given (compared with glob on the link trees)
     from vlib.spec import pat as P
     star_pats = [p for p in globrun.small_patterns() if '**' in P.render(p)]
-    items2 = [(tn, specs[tn], [(p, f, None) for f in (G.G, G.G | G.D, G.GL | G.E, G.G | G.L, G.GL | G.X) for p in star_pats]) for tn in ('links', 'deep2', 'acyclic', 'relink')]
+    from vlib import patsets as _ps
+    _L, _gs, _gsl = _ps.L, (('gs',),), (('gsl',),)
+    # a plain `**` before a `***` in one pattern: what the later segment may do (go through links) must not rub off on the earlier one
+    star_pats += [_ps.mkpath([_gs, (_L(c),), _gsl]) for c in 'drs'] + [_ps.mkpath([_gs, (_L('d'),), _gsl, (_L('f'),)])]
+    items2 = [(tn, specs[tn], [(p, f, None) for f in (G.G, G.G | G.D, G.GL | G.E, G.G | G.L, G.GL | G.X) for p in star_pats]) for tn in ('links', 'deep2', 'acyclic', 'relink', 'twin')]
     for res in pmap(globrun.globmatch_vs_glob, items2, chunk=1):
         for r in res:
             if r['kind'] == 'error':
